@@ -391,6 +391,11 @@ func (w *world) onExec(e fakeredis.Entry) {
 			w.endLoad(g)
 		case "delkey":
 			ok := e.Reply.T == ':' && e.Reply.I == 1
+			if g != nil && g.state == "store" && args[0] == g.lockID {
+				// the setkey script never reached the server (its client is closed): the Get releases its lock
+				w.emit(obs.App("AStore", obs.Nat(g.id), "false", "false"), "(OBool false)")
+				g.state, g.err = "unlock", errors.New("setkey failed")
+			}
 			if g != nil && g.state == "unlock" && args[0] == g.lockID {
 				w.emit(obs.App("AUnlock", obs.Nat(g.id), "true"), "(ODone "+gresTerm(g.val, g.err)+")")
 				g.state = "done"
@@ -557,7 +562,7 @@ func (w *world) doGet(ci int, key string, ld Loader) *getRec {
 			if err == nil {
 				w.produced[key] = append(w.produced[key], val)
 				w.emit(obs.App("ALoad", obs.Nat(g.id), obs.Some(obs.HS(val))), "ONone")
-				g.state = "store"
+				g.state, g.val = "store", val
 			} else {
 				w.emit(obs.App("ALoad", obs.Nat(g.id), obs.None), "ONone")
 				g.state, g.val, g.err = "unlock", "", err
